@@ -20,8 +20,6 @@ Fixpoint lookup (l : list (rgba * N)) (c : rgba) : N :=
 Inductive c05_case :=
   Case (cp : caps) (c : cmd) (oracle : list (rgba * N)) (impl : option (list N)).
 
-Definition is_raw (c : cmd) : bool := match c with Raw _ => true | _ => false end.
-
 Definition oracle_ok (d : depth) (l : list (rgba * N)) : bool :=
   match d with
   | TrueColor => true
